@@ -59,14 +59,56 @@ Proof.
   - intros H. exists h. split; [assumption|apply Nat.eqb_refl].
 Qed.
 
-Lemma rm1_length h l : has h l = true -> S (length (rm1 h l)) = length l.
+Lemma nth_upd_eq {A} (l : list A) d : forall o x, o < length l -> nth o (upd o x l) d = x.
+Proof. induction l; intros [|o] x H; cbn in *; try lia; [reflexivity|apply IHl; lia]. Qed.
+
+Lemma nth_upd_neq {A} (l : list A) d : forall o o1 x, o <> o1 -> nth o (upd o1 x l) d = nth o l d.
+Proof. induction l; intros [|o] [|o1] x H; cbn in *; try congruence; try reflexivity. apply IHl. congruence. Qed.
+
+Lemma nth_app_len {A} (l : list A) x d : nth (length l) (l ++ [x]) d = x.
+Proof. induction l; cbn; auto. Qed.
+
+(** handles *)
+Definition b2n (b : bool) : nat := if b then 1 else 0.
+
+Fixpoint cnto (o : nat) (l : list (nat * nat)) : nat :=
+  match l with [] => 0 | (_, o') :: r => b2n (Nat.eqb o o') + cnto o r end.
+
+Lemma cnto_rm1 o h o1 lv : lookup h lv = Some o1 -> cnto o (rm1 h lv) + b2n (Nat.eqb o o1) = cnto o lv.
 Proof.
-  induction l as [|x r IH]; cbn; [discriminate|].
-  destruct (Nat.eqb h x); cbn; [reflexivity|]. intros H. rewrite IH; auto.
+  induction lv as [|[h' o'] r IH]; cbn; [discriminate|].
+  destruct (Nat.eqb h h'); [intros [= ->]; lia|]. intros H. cbn. specialize (IH H). lia.
 Qed.
 
-Lemma has_length h l : has h l = true -> 1 <= length l.
-Proof. destruct l; cbn; [discriminate|lia]. Qed.
+Lemma lookup_cnto h o lv : lookup h lv = Some o -> 1 <= cnto o lv.
+Proof.
+  induction lv as [|[h' o'] r IH]; cbn; [discriminate|].
+  destruct (Nat.eqb h h'); [intros [= ->]; rewrite Nat.eqb_refl; cbn; lia|]. intros H. specialize (IH H). lia.
+Qed.
+
+Definition live_bound (n : nat) (lv : list (nat * nat)) : Prop := Forall (fun p => snd p < n) lv.
+
+Lemma lookup_bound n h o lv : live_bound n lv -> lookup h lv = Some o -> o < n.
+Proof.
+  unfold live_bound. induction lv as [|[h' o'] r IH]; cbn; [discriminate|]. intros F.
+  inversion F as [|? ? F1 F2]; subst. destruct (Nat.eqb h h'); [intros [= <-]; exact F1|apply IH, F2].
+Qed.
+
+Lemma rm1_bound n h lv : live_bound n lv -> live_bound n (rm1 h lv).
+Proof.
+  unfold live_bound. induction lv as [|[h' o'] r IH]; cbn; [auto|]. intros F.
+  inversion F; subst. destruct (Nat.eqb h h'); [assumption|constructor; auto].
+Qed.
+
+Lemma live_bound_mono n m lv : n <= m -> live_bound n lv -> live_bound m lv.
+Proof. intros H F. eapply Forall_impl; [|exact F]. cbn. intros; lia. Qed.
+
+Lemma cnto_fresh n lv : live_bound n lv -> cnto n lv = 0.
+Proof.
+  unfold live_bound. induction lv as [|[h' o'] r IH]; cbn; [reflexivity|]. intros F.
+  inversion F as [|? ? F1 F2]; subst. cbn in F1. rewrite IH by assumption.
+  replace (Nat.eqb n o') with false by (symmetry; apply Nat.eqb_neq; lia). reflexivity.
+Qed.
 
 (** * Suffix-indexed properties of the log (newest first: the tail of an event is its past) *)
 
@@ -112,57 +154,113 @@ Qed.
 Lemma cnt_filter_length p l : cnt p l = length (filter p l).
 Proof. induction l as [|x r IH]; cbn; [reflexivity|]. destruct (p x); cbn; lia. Qed.
 
-(** * Event classifiers *)
-Definition is_takecas e := match e with EvTakeCas _ _ => true | _ => false end.
-Definition is_dtorcas e := match e with EvDtorCas _ _ => true | _ => false end.
-Definition is_deczero e := match e with EvDecZero _ => true | _ => false end.
-Definition is_close e := match e with EvClose _ _ => true | _ => false end.
-Definition is_take_some e := match e with EvRet _ _ (RTake (Some _)) => true | _ => false end.
+(** * Event classifiers (per object) *)
+Definition is_takecas (o : nat) e := match e with EvTakeCas _ o' _ => Nat.eqb o o' | _ => false end.
+Definition is_dtorcas (o : nat) e := match e with EvDtorCas _ o' _ => Nat.eqb o o' | _ => false end.
+Definition is_deczero (o : nat) e := match e with EvDecZero _ o' => Nat.eqb o o' | _ => false end.
+Definition is_close (o : nat) e := match e with EvClose _ o' _ => Nat.eqb o o' | _ => false end.
+Definition is_take_some (o : nat) e := match e with EvRet _ _ o' (RTake (Some _)) => Nat.eqb o o' | _ => false end.
 
-(** thread id of an event *)
+(** thread id and object of an event *)
 Definition ev_tid e :=
   match e with
-  | EvStart t _ | EvTakeCas t _ | EvDtorCas t _ | EvDecZero t | EvDupSys t _ _ | EvClose t _ | EvRet t _ _ => t
+  | EvStart t _ _ | EvTakeCas t _ _ | EvDtorCas t _ _ | EvDecZero t _ | EvDupSys t _ _ _ | EvDupFail t _ _
+  | EvClose t _ _ | EvRet t _ _ _ => t
+  end.
+Definition ev_obj e :=
+  match e with
+  | EvStart _ _ o | EvTakeCas _ o _ | EvDtorCas _ o _ | EvDecZero _ o | EvDupSys _ o _ _ | EvDupFail _ o _
+  | EvClose _ o _ | EvRet _ _ o _ => o
   end.
 
-(** * Per-thread indicators *)
-Definition nlive (th : thread) : nat := length (live th).
-Definition holds_take (th : thread) : nat :=
+Lemma cnt_fresh (p : nat -> event -> bool) n lg :
+  (forall e, p n e = true -> ev_obj e = n) -> Forall (fun e => ev_obj e < n) lg -> cnt (p n) lg = 0.
+Proof.
+  intros Hp F. apply cnt_zero_iff. intros e He. rewrite Forall_forall in F. specialize (F e He).
+  destruct (p n e) eqn:E; [|reflexivity]. apply Hp in E. lia.
+Qed.
+Lemma is_takecas_obj n e : is_takecas n e = true -> ev_obj e = n.
+Proof. destruct e; cbn; try discriminate. intros H. apply Nat.eqb_eq in H. auto. Qed.
+Lemma is_dtorcas_obj n e : is_dtorcas n e = true -> ev_obj e = n.
+Proof. destruct e; cbn; try discriminate. intros H. apply Nat.eqb_eq in H. auto. Qed.
+Lemma is_deczero_obj n e : is_deczero n e = true -> ev_obj e = n.
+Proof. destruct e; cbn; try discriminate. intros H. apply Nat.eqb_eq in H. auto. Qed.
+Lemma is_close_obj n e : is_close n e = true -> ev_obj e = n.
+Proof. destruct e; cbn; try discriminate. intros H. apply Nat.eqb_eq in H. auto. Qed.
+Lemma is_take_some_obj n e : is_take_some n e = true -> ev_obj e = n.
+Proof. destruct e as [| | | | | | |? ? ? [[?|]| | | | | | |]]; cbn; try discriminate. intros H. apply Nat.eqb_eq in H. auto. Qed.
+
+(** * Per-thread indicators (per object) *)
+Definition nlive (o : nat) (th : thread) : nat := cnto o (live th).
+Definition holds_take (o : nat) (th : thread) : nat :=
   match pc th with
-  | TakeDec _ (Some _) => 1
-  | DtorLoad (RTake (Some _)) | DtorCas _ (RTake (Some _)) | DtorClose _ (RTake (Some _)) => 1
+  | TakeDec _ o' (Some _) => b2n (Nat.eqb o o')
+  | DtorLoad o' (RTake (Some _)) | DtorCas o' _ (RTake (Some _)) | DtorClose o' _ (RTake (Some _)) => b2n (Nat.eqb o o')
   | _ => 0
   end.
-Definition in_close (th : thread) : nat := match pc th with DtorClose _ _ => 1 | _ => 0 end.
-Definition in_dtor (th : thread) : nat :=
-  match pc th with DtorLoad _ | DtorCas _ _ | DtorClose _ _ => 1 | _ => 0 end.
+Definition in_close (o : nat) (th : thread) : nat :=
+  match pc th with DtorClose o' _ _ => b2n (Nat.eqb o o') | _ => 0 end.
+Definition in_dtor (o : nat) (th : thread) : nat :=
+  match pc th with DtorLoad o' _ | DtorCas o' _ _ | DtorClose o' _ _ => b2n (Nat.eqb o o') | _ => 0 end.
 
-Arguments nlive !th /.
-Arguments holds_take !th /.
-Arguments in_close !th /.
-Arguments in_dtor !th /.
+Arguments nlive o !th /.
+Arguments holds_take o !th /.
+Arguments in_close o !th /.
+Arguments in_dtor o !th /.
 
-Lemma in_close_le_dtor th : in_close th <= in_dtor th.
-Proof. destruct th as [? ? [] ? ?]; cbn; lia. Qed.
+Lemma in_close_le_dtor o th : in_close o th <= in_dtor o th.
+Proof. destruct th as [? ? [] ? ? ?]; cbn; lia. Qed.
+
+(** objects a thread refers to are below n *)
+Definition pc_bound (n : nat) (p : pcs) : Prop :=
+  match p with
+  | Idle => True
+  | TakeCas _ o _ | TakeDec _ o _ | DupSys o _ _ | DtorLoad o _ | DtorCas o _ _ | DtorClose o _ _ => o < n
+  end.
+Definition th_bound (n : nat) (th : thread) : Prop := live_bound n (live th) /\ pc_bound n (pc th).
+
+Lemma th_bound_mono n m th : n <= m -> th_bound n th -> th_bound m th.
+Proof.
+  intros H [B1 B2]. split; [eapply live_bound_mono; eassumption|].
+  destruct (pc th); cbn in *; lia.
+Qed.
+
+Lemma sumf_fresh (f : nat -> thread -> nat) n l :
+  (forall th, th_bound n th -> f n th = 0) ->
+  (forall t th, nth_error l t = Some th -> th_bound n th) -> sumf (f n) l = 0.
+Proof.
+  intros Hf. induction l as [|x r IH]; cbn; intros H; [reflexivity|].
+  rewrite (Hf x (H 0 x eq_refl)). apply IH. intros t th E. apply (H (S t) th E).
+Qed.
+Lemma neq_b2n n o : o < n -> b2n (Nat.eqb n o) = 0.
+Proof. intros H. replace (Nat.eqb n o) with false by (symmetry; apply Nat.eqb_neq; lia). reflexivity. Qed.
+Lemma nlive_fresh n th : th_bound n th -> nlive n th = 0.
+Proof. intros [B _]. destruct th; cbn in *. apply cnto_fresh, B. Qed.
+Lemma holds_take_fresh n th : th_bound n th -> holds_take n th = 0.
+Proof. intros [_ B]. destruct th as [? ? [| | ? ? [|]| | ? [[|]| | | | | | |]| ? ? [[|]| | | | | | |]| ? ? [[|]| | | | | | |]] ? ? ?]; cbn in *; auto using neq_b2n. Qed.
+Lemma in_close_fresh n th : th_bound n th -> in_close n th = 0.
+Proof. intros [_ B]. destruct th as [? ? [] ? ? ?]; cbn in *; auto using neq_b2n. Qed.
+Lemma in_dtor_fresh n th : th_bound n th -> in_dtor n th = 0.
+Proof. intros [_ B]. destruct th as [? ? [] ? ? ?]; cbn in *; auto using neq_b2n. Qed.
 
 (** * "Gone" results and "started after the take" *)
 
-(** the descriptor was reported as gone (or the call is not a get/take/dup) *)
+(** the descriptor was reported as gone (or the call is not a successful get/take/dup) *)
 Definition gone (r : res) : Prop :=
   match r with RTake (Some _) | RGet (Some _) | RDup (Some _) => False | _ => True end.
 
-(** [e] is the first atomic action of operation i of thread t => no successful take before it *)
-Definition no_take_before (t i : nat) (e : event) (older : list event) : Prop :=
-  e = EvStart t i -> cnt is_takecas older = 0.
-Definition NB (lg : list event) (t i : nat) : Prop := ForallSuf (no_take_before t i) lg.
+(** [e] is the first atomic action of operation i of thread t, on object o => no successful take of o before it *)
+Definition no_take_before (o t i : nat) (e : event) (older : list event) : Prop :=
+  e = EvStart t i o -> cnt (is_takecas o) older = 0.
+Definition NB (o : nat) (lg : list event) (t i : nat) : Prop := ForallSuf (no_take_before o t i) lg.
 
-Lemma NB_cons_other lg t i e : e <> EvStart t i -> NB lg t i -> NB (e :: lg) t i.
+Lemma NB_cons_other o lg t i e : e <> EvStart t i o -> NB o lg t i -> NB o (e :: lg) t i.
 Proof. intros Hne H. split; [intros E; contradiction|exact H]. Qed.
 
-Lemma NB_cons_start lg t i : cnt is_takecas lg = 0 -> NB lg t i -> NB (EvStart t i :: lg) t i.
+Lemma NB_cons_start o lg t i : cnt (is_takecas o) lg = 0 -> NB o lg t i -> NB o (EvStart t i o :: lg) t i.
 Proof. intros H0 H. split; [intros _; exact H0|exact H]. Qed.
 
-Lemma NB_of_no_take lg t i : cnt is_takecas lg = 0 -> NB lg t i.
+Lemma NB_of_no_take o lg t i : cnt (is_takecas o) lg = 0 -> NB o lg t i.
 Proof.
   intros H. apply ForallSuf_split. intros newer e older -> _.
   rewrite cnt_app in H. cbn in H. lia.
@@ -170,61 +268,72 @@ Qed.
 
 (** * The invariant *)
 
-Definition okk (fd0 : Z) (k : res) : Prop := k = RDrop \/ k = RTake None \/ k = RTake (Some fd0).
+Definition okk (fd : Z) (k : res) : Prop := k = RDrop \/ k = RTake None \/ k = RTake (Some fd).
 
-Definition dt_ok (fd0 : Z) (lg : list event) (t : nat) (th : thread) (k : res) : Prop :=
-  okk fd0 k /\ In (EvDecZero t) lg /\ In (EvStart t (done th)) lg /\ (~ gone k -> NB lg t (done th)).
+Definition dt_ok (fd0 : Z) (lg : list event) (t : nat) (th : thread) (o : nat) (k : res) : Prop :=
+  okk (obj_fd fd0 o) k /\ In (EvDecZero t o) lg /\ In (EvStart t (done th) o) lg
+  /\ (~ gone k -> NB o lg t (done th)).
 
 Definition th_ok (fd0 : Z) (lg : list event) (t : nat) (th : thread) : Prop :=
   match pc th with
   | Idle => True
-  | TakeCas h v => v = fd0 /\ has h (live th) = true /\ In (EvStart t (done th)) lg /\ NB lg t (done th)
-  | TakeDec h r => has h (live th) = true /\ In (EvStart t (done th)) lg
-                   /\ (r = None \/ (r = Some fd0 /\ NB lg t (done th)))
-  | DupSys v => v = fd0 /\ In (EvStart t (done th)) lg /\ NB lg t (done th)
-  | DtorLoad k => dt_ok fd0 lg t th k
-  | DtorCas v k => v = fd0 /\ dt_ok fd0 lg t th k
-  | DtorClose v k => v = fd0 /\ dt_ok fd0 lg t th k
+  | TakeCas h o v => v = obj_fd fd0 o /\ lookup h (live th) = Some o
+                     /\ In (EvStart t (done th) o) lg /\ NB o lg t (done th)
+  | TakeDec h o r => lookup h (live th) = Some o /\ In (EvStart t (done th) o) lg
+                     /\ (r = None \/ (r = Some (obj_fd fd0 o) /\ NB o lg t (done th)))
+  | DupSys o v _ => v = obj_fd fd0 o /\ In (EvStart t (done th) o) lg /\ NB o lg t (done th)
+  | DtorLoad o k => dt_ok fd0 lg t th o k
+  | DtorCas o v k => v = obj_fd fd0 o /\ dt_ok fd0 lg t th o k
+  | DtorClose o v k => v = obj_fd fd0 o /\ dt_ok fd0 lg t th o k
   end.
 
-Definition ev_ok (fd0 nf : Z) (e : event) : Prop :=
+(** every event names an existing object and carries that object's descriptor; dup results are
+    the descriptors of existing objects *)
+Definition ev_ok (fd0 : Z) (n : nat) (e : event) : Prop :=
+  ev_obj e < n /\
   match e with
-  | EvClose _ fd => fd = fd0
-  | EvDupSys _ src new => src = fd0 /\ (fd0 < new < nf)%Z
-  | EvTakeCas _ v | EvDtorCas _ v => v = fd0
+  | EvClose _ o fd => fd = obj_fd fd0 o
+  | EvDupSys _ o src new => src = obj_fd fd0 o /\ exists o', o' < n /\ 0 < o' /\ new = obj_fd fd0 o'
+  | EvDupFail _ o src => src = obj_fd fd0 o
+  | EvTakeCas _ o v | EvDtorCas _ o v => v = obj_fd fd0 o
   | _ => True
   end.
 
 Definition ret_ok (fd0 : Z) (e : event) (older : list event) : Prop :=
-  forall t i r, e = EvRet t i r ->
-    In (EvStart t i) older /\ (~ gone r -> NB older t i)
-    /\ (forall v, r = RTake (Some v) -> v = fd0) /\ (forall v, r = RGet (Some v) -> v = fd0).
+  forall t i o r, e = EvRet t i o r ->
+    In (EvStart t i o) older /\ (~ gone r -> NB o older t i)
+    /\ (forall v, r = RTake (Some v) -> v = obj_fd fd0 o) /\ (forall v, r = RGet (Some v) -> v = obj_fd fd0 o).
 
 Definition close_ok (e : event) (older : list event) : Prop :=
-  forall t fd, e = EvClose t fd -> In (EvDecZero t) older /\ cnt is_close older = 0.
+  forall t o fd, e = EvClose t o fd -> In (EvDecZero t o) older.
 
-Definition dup_ok (e : event) (older : list event) : Prop :=
-  forall t s n, e = EvDupSys t s n -> forall t' s' n', In (EvDupSys t' s' n') older -> (n' < n)%Z.
+(** the numeric part, per object *)
+Record InvO (fd0 : Z) (c : cfg) (o : nat) : Prop := mkInvO {
+  i_cell : (cell (get_obj (sh c) o) = obj_fd fd0 o
+            /\ cnt (is_takecas o) (log (sh c)) + cnt (is_dtorcas o) (log (sh c)) = 0)
+        \/ (cell (get_obj (sh c) o) = FD_INVALID
+            /\ cnt (is_takecas o) (log (sh c)) + cnt (is_dtorcas o) (log (sh c)) = 1);
+  i_strong : strong (get_obj (sh c) o) = sumf (nlive o) (threads c);
+  i_take : cnt (is_take_some o) (log (sh c)) + sumf (holds_take o) (threads c) = cnt (is_takecas o) (log (sh c));
+  i_close : cnt (is_close o) (log (sh c)) + sumf (in_close o) (threads c) = cnt (is_dtorcas o) (log (sh c));
+  i_dz1 : cnt (is_deczero o) (log (sh c)) <= 1;
+  i_dz2 : cnt (is_deczero o) (log (sh c)) = 1 -> strong (get_obj (sh c) o) = 0;
+  i_dz3 : strong (get_obj (sh c) o) = 0 -> cnt (is_deczero o) (log (sh c)) = 1 \/ threads c = [];
+  i_dz4 : sumf (in_dtor o) (threads c) + cnt (is_close o) (log (sh c)) <= cnt (is_deczero o) (log (sh c));
+  i_dz5 : cnt (is_takecas o) (log (sh c)) = 0 ->
+          cnt (is_deczero o) (log (sh c)) = sumf (in_dtor o) (threads c) + cnt (is_close o) (log (sh c))
+}.
 
 Record Inv (fd0 : Z) (c : cfg) : Prop := mkInv {
-  i_fd : fd0 <> FD_INVALID;
-  i_cell : (cell (sh c) = fd0 /\ cnt is_takecas (log (sh c)) + cnt is_dtorcas (log (sh c)) = 0)
-        \/ (cell (sh c) = FD_INVALID /\ cnt is_takecas (log (sh c)) + cnt is_dtorcas (log (sh c)) = 1);
-  i_strong : strong (sh c) = sumf nlive (threads c);
-  i_take : cnt is_take_some (log (sh c)) + sumf holds_take (threads c) = cnt is_takecas (log (sh c));
-  i_close : cnt is_close (log (sh c)) + sumf in_close (threads c) = cnt is_dtorcas (log (sh c));
-  i_dz1 : cnt is_deczero (log (sh c)) <= 1;
-  i_dz2 : cnt is_deczero (log (sh c)) = 1 -> strong (sh c) = 0;
-  i_dz3 : strong (sh c) = 0 -> cnt is_deczero (log (sh c)) = 1 \/ threads c = [];
-  i_dz4 : sumf in_dtor (threads c) + cnt is_close (log (sh c)) <= cnt is_deczero (log (sh c));
-  i_dz5 : cnt is_takecas (log (sh c)) = 0 ->
-          cnt is_deczero (log (sh c)) = sumf in_dtor (threads c) + cnt is_close (log (sh c));
-  i_next : (fd0 < next_fd (sh c))%Z;
-  i_evs : Forall (ev_ok fd0 (next_fd (sh c))) (log (sh c));
-  i_threads : forall t th, nth_error (threads c) t = Some th -> th_ok fd0 (log (sh c)) t th;
-  i_rets : ForallSuf (ret_ok fd0) (log (sh c));
-  i_closeord : ForallSuf close_ok (log (sh c));
-  i_dupord : ForallSuf dup_ok (log (sh c))
+  g_fd : (0 <= fd0)%Z;
+  g_len : 1 <= length (objs (sh c));
+  g_next : next_fd (sh c) = obj_fd fd0 (length (objs (sh c)));
+  g_evs : Forall (ev_ok fd0 (length (objs (sh c)))) (log (sh c));
+  g_threads : forall t th, nth_error (threads c) t = Some th ->
+                th_ok fd0 (log (sh c)) t th /\ th_bound (length (objs (sh c))) th;
+  g_rets : ForallSuf (ret_ok fd0) (log (sh c));
+  g_closeord : ForallSuf close_ok (log (sh c));
+  g_objs : forall o, o < length (objs (sh c)) -> InvO fd0 c o
 }.
 
 (** * Initially *)
@@ -232,28 +341,35 @@ Lemma sumf_init f progs : (forall p, f (init_thread p) = f (init_thread [])) ->
   sumf f (map init_thread progs) = length progs * f (init_thread []).
 Proof. intros H. induction progs as [|p r IH]; cbn [map sumf length]; [reflexivity|]. rewrite IH, H. lia. Qed.
 
-Lemma inv_init fd0 progs : fd0 <> FD_INVALID -> Inv fd0 (init fd0 progs).
+Lemma inv_init fd0 progs : (0 <= fd0)%Z -> Inv fd0 (init fd0 progs).
 Proof.
-  intros Hfd. constructor; cbn; auto; try lia.
-  - rewrite sumf_init by reflexivity. cbn. lia.
-  - rewrite sumf_init by reflexivity. cbn. lia.
-  - rewrite sumf_init by reflexivity. cbn. lia.
-  - intros H. right. destruct progs; [reflexivity|discriminate].
-  - rewrite sumf_init by reflexivity. cbn. lia.
-  - rewrite sumf_init by reflexivity. cbn. lia.
-  - intros t th H. apply nth_error_In in H. apply in_map_iff in H as (p & <- & _). exact I.
+  intros Hfd. constructor; cbn [init sh threads objs next_fd log length]; auto.
+  - intros t th H. apply nth_error_In in H. apply in_map_iff in H as (p & <- & _).
+    split; [exact I|]. split; cbn; [repeat constructor|exact I].
+  - exact I.
+  - exact I.
+  - intros o Ho. assert (o = 0) by lia. subst o.
+    constructor; unfold get_obj; cbn [init sh threads objs next_fd log length nth cell strong cnt]; try lia.
+    + left. unfold obj_fd. split; lia.
+    + rewrite sumf_init by reflexivity. cbn. lia.
+    + rewrite sumf_init by reflexivity. cbn. lia.
+    + rewrite sumf_init by reflexivity. cbn. lia.
+    + intros H. right. destruct progs; [reflexivity|discriminate].
+    + rewrite sumf_init by reflexivity. cbn. lia.
+    + rewrite sumf_init by reflexivity. cbn. lia.
 Qed.
+
 
 (** * Preservation *)
 
 Lemma th_ok_cons fd0 lg t' th e : ev_tid e <> t' -> th_ok fd0 lg t' th -> th_ok fd0 (e :: lg) t' th.
 Proof.
-  intros Hne. assert (Hs : forall i, e <> EvStart t' i) by (intros i ->; apply Hne; reflexivity).
+  intros Hne. assert (Hs : forall i o, e <> EvStart t' i o) by (intros i o ->; apply Hne; reflexivity).
   unfold th_ok, dt_ok. destruct (pc th); intros H; repeat match goal with
     | H : _ /\ _ |- _ => destruct H
     | |- _ /\ _ => split
     | |- In _ (_ :: _) => right; assumption
-    | |- NB (_ :: _) _ _ => apply NB_cons_other; [apply Hs|assumption]
+    | |- NB _ (_ :: _) _ _ => apply NB_cons_other; [apply Hs|assumption]
     end; auto.
   - destruct H1 as [->|[-> ?]]; [left; reflexivity|right; split; [reflexivity|apply NB_cons_other; auto]].
   - intros Hg. apply NB_cons_other; auto.
@@ -261,17 +377,23 @@ Proof.
   - intros Hg. apply NB_cons_other; auto.
 Qed.
 
-Lemma ev_ok_mono fd0 nf nf' e : (nf <= nf')%Z -> ev_ok fd0 nf e -> ev_ok fd0 nf' e.
-Proof. destruct e; cbn; intuition lia. Qed.
+Lemma ev_ok_mono fd0 n m e : n <= m -> ev_ok fd0 n e -> ev_ok fd0 m e.
+Proof.
+  intros H [B E]. split; [lia|]. destruct e; auto.
+  destruct E as (E1 & o' & ? & ? & ?). split; [assumption|]. exists o'. repeat split; auto; lia.
+Qed.
+
+Ltac red_rec := unfold set_pc, set_live, alloc_dead, alloc_live, emit, set_obj, get_obj;
+  cbn [pc prog done live dead nexth objs next_fd log sh threads cell strong].
+Ltac red_rec_in H := unfold set_pc, set_live, alloc_dead, alloc_live, emit, set_obj, get_obj in H;
+  cbn [pc prog done live dead nexth objs next_fd log sh threads cell strong] in H.
+Ltac red_cnt := cbn [cnt is_takecas is_dtorcas is_deczero is_close is_take_some] in *.
 
 Ltac split_step ST :=
-  unfold step_thread, dec_strong, retire, load_opt in ST;
-  cbn [pc prog done live nexth cell strong next_fd log set_pc set_live emit set_cell set_strong set_next] in ST;
+  unfold step_thread, skip_op, dec_strong, retire, load_opt in ST; red_rec_in ST;
   repeat match type of ST with
-  | context [if Z.eqb ?a ?b then _ else _] => destruct (Z.eqb a b) eqn:?;
-      cbn [pc prog done live nexth cell strong next_fd log set_pc set_live emit set_cell set_strong set_next] in ST
-  | context [match ?x with _ => _ end] => destruct x eqn:?;
-      cbn [pc prog done live nexth cell strong next_fd log set_pc set_live emit set_cell set_strong set_next] in ST
+  | context [if Z.eqb ?a ?b then _ else _] => destruct (Z.eqb a b) eqn:?; red_rec_in ST
+  | context [match ?x with _ => _ end] => destruct x eqn:?; red_rec_in ST
   end;
   injection ST as <- <-.
 
@@ -283,105 +405,171 @@ Ltac bool_facts :=
   | H : Nat.eqb _ _ = false |- _ => apply Nat.eqb_neq in H
   end.
 
-Ltac red_rec := unfold set_pc, set_live, emit, set_cell, set_strong, set_next;
-  cbn [pc prog done live nexth cell strong next_fd log sh threads].
-Ltac red_rec_in H := unfold set_pc, set_live, emit, set_cell, set_strong, set_next in H;
-  cbn [pc prog done live nexth cell strong next_fd log sh threads] in H.
-Ltac red_cnt := cbn [cnt is_takecas is_dtorcas is_deczero is_close is_take_some] in *.
-
 Ltac solve_NB :=
   repeat first [ apply NB_cons_start; [lia|] | apply NB_cons_other; [discriminate|] ];
   first [ assumption | apply NB_of_no_take; lia ].
 
 Ltac solve_In := cbn [In]; auto 6.
 
-Ltac solve_evs :=
-  repeat (apply Forall_cons; [cbn [ev_ok]; first [exact I | reflexivity | split; [reflexivity|lia] ] |]);
-  first [ assumption
-        | eapply Forall_impl; [|eassumption]; intros ? ?; eapply ev_ok_mono; [|eassumption]; lia ].
+Ltac norm_len := rewrite ?upd_length, ?app_length in *; cbn [length] in *.
+
+Ltac solve_ev1 :=
+  split; [cbn [ev_obj]; lia
+         | cbn beta iota; first [exact I | reflexivity | assumption | lia
+                                | split; [first [reflexivity | assumption | lia]
+                                         | eexists; repeat split; try reflexivity; lia] ]].
+
+Ltac solve_evs Ievs :=
+  repeat (apply Forall_cons; [solve_ev1|]);
+  first [ exact Ievs
+        | eapply Forall_impl; [|exact Ievs]; intros ? ?; eapply ev_ok_mono; [|eassumption]; lia ].
 
 Ltac solve_gone_or_NB :=
   first [ solve [intros Hg; exfalso; apply Hg; exact I] | solve [intros _; solve_NB] ].
 
 Ltac solve_ret_ok :=
   let Heq := fresh "Heq" in
-  unfold ret_ok; intros ? ? ? Heq;
+  unfold ret_ok; intros ? ? ? ? Heq;
   first [ discriminate Heq
-        | injection Heq as <- <- <-;
+        | injection Heq as <- <- <- <-;
           repeat match goal with |- _ /\ _ => split end;
           [ solve_In
           | solve_gone_or_NB
-          | let Hv := fresh in intros ? Hv; first [discriminate Hv | injection Hv as <-; first [reflexivity | lia]]
-          | let Hv := fresh in intros ? Hv; first [discriminate Hv | injection Hv as <-; first [reflexivity | lia]] ] ].
+          | let Hv := fresh in intros ? Hv; first [discriminate Hv | injection Hv as <-; first [reflexivity | assumption | lia]]
+          | let Hv := fresh in intros ? Hv; first [discriminate Hv | injection Hv as <-; first [reflexivity | assumption | lia]] ] ].
 
 Ltac solve_close_ok :=
   let Heq := fresh "Heq" in
-  unfold close_ok; intros ? ? Heq;
-  first [ discriminate Heq | injection Heq as <- <-; split; [solve_In | red_cnt; lia] ].
+  unfold close_ok; intros ? ? ? Heq;
+  first [ discriminate Heq | injection Heq as <- <- <-; solve_In ].
 
-Ltac solve_dup_ok Ievs :=
-  let Heq := fresh "Heq" in let Hin := fresh "Hin" in
-  unfold dup_ok; intros ? ? ? Heq;
-  first [ discriminate Heq
-        | injection Heq as <- <- <-; intros ? ? ? Hin;
-          rewrite Forall_forall in Ievs; apply Ievs in Hin; cbn [ev_ok] in Hin; lia ].
+Lemma evs_bound fd0 n lg : Forall (ev_ok fd0 n) lg -> Forall (fun e => ev_obj e < n) lg.
+Proof. apply Forall_impl. intros e [H _]. exact H. Qed.
+
+Ltac fin_obj :=
+
+  repeat match goal with
+         | H : Forall _ _ |- _ => clear H
+         | H : ForallSuf _ _ |- _ => clear H
+         | H : NB _ _ _ _ |- _ => clear H
+         | H : In _ _ |- _ => clear H
+         | H : forall o, o < _ -> InvO _ _ o |- _ => clear H
+         | H : forall t th, nth_error _ t = Some th -> _ |- _ => clear H
+         end;
+  cbn [b2n] in *; unfold obj_fd, FD_INVALID in *;
+  constructor; unfold get_obj; cbn [sh threads objs log];
+  rewrite ?nth_upd_eq by assumption; rewrite ?nth_upd_neq by assumption;
+  rewrite ?app_nth1 by assumption; rewrite ?nth_app_len;
+  cbn [cell strong cnt is_takecas is_dtorcas is_deczero is_close is_take_some]; rewrite ?Nat.eqb_refl;
+  try match goal with H : Nat.eqb _ _ = false |- _ => rewrite ?H end;
+  cbn [b2n]; unfold obj_fd, FD_INVALID; intros; first [ lia | left; lia ].
 
 Lemma step_inv fd0 t c : Inv fd0 c -> Inv fd0 (step t c).
 Proof.
   intros I. unfold step. destruct (nth_error (threads c) t) as [th|] eqn:E; [|exact I].
   destruct (step_thread t th (sh c)) as [th' s'] eqn:ST.
-  destruct c as [[cl st nf lg] ths]. destruct th as [pg dn p lv nx].
-  destruct I as [Ifd Icell Istrong Itake Iclose Idz1 Idz2 Idz3 Idz4 Idz5 Inext Ievs Ithreads Irets Icloseord Idupord].
-  cbn [sh threads cell strong next_fd log] in *.
-  assert (Idz3' : st = 0 -> cnt is_deczero lg = 1).
-  { intros H. destruct (Idz3 H) as [Hx | ->]; [assumption|]. destruct t; discriminate. }
-  clear Idz3.
-  pose proof (Ithreads _ _ E) as Hth. unfold th_ok, dt_ok in Hth. cbn [pc done live] in Hth.
-  pose proof (sumf_ge nlive _ _ _ E) as G1. pose proof (sumf_ge holds_take _ _ _ E) as G2.
-  pose proof (sumf_ge in_close _ _ _ E) as G3. pose proof (sumf_ge in_dtor _ _ _ E) as G4.
-  pose proof (sumf_le2 in_close in_dtor _ in_close_le_dtor _ _ E) as G5.
+  destruct c as [[obs nf lg] ths]. destruct th as [pg dn p lv dd nx].
+  destruct I as [Ifd Ilen Inext Ievs Ithreads Irets Icloseord Iobjs].
+  cbn [sh threads objs next_fd log] in *.
+  destruct (Ithreads _ _ E) as [Hth Hbd]. unfold th_ok, dt_ok in Hth. cbn [pc done live] in Hth.
+  destruct Hbd as [Hbl Hbp]. cbn [pc live] in Hbl, Hbp.
   split_step ST.
-  all: cbn [nlive holds_take in_close in_dtor pc live] in G1, G2, G3, G4, G5.
-  1: { rewrite (upd_same _ _ _ E). constructor; auto. }
-  all: red_rec.
+  all: try solve [rewrite (upd_same _ _ _ E); constructor; auto].
   all: bool_facts.
-  all: match goal with |- Inv _ (mkCfg _ (upd ?t ?th' ?ths)) =>
-         pose proof (sumf_upd nlive ths t _ th' E) as U1; pose proof (sumf_upd holds_take ths t _ th' E) as U2;
-         pose proof (sumf_upd in_close ths t _ th' E) as U3; pose proof (sumf_upd in_dtor ths t _ th' E) as U4;
-         cbn [nlive holds_take in_close in_dtor pc live length] in U1, U2, U3, U4
-       end.
+  all: cbn [op_handle] in *.
   all: try match goal with H : _ /\ _ |- _ => decompose [and] H; clear H end.
-  all: try match goal with H : has ?h ?lv = true |- _ => pose proof (rm1_length _ _ H); pose proof (has_length _ _ H) end.
+  all: cbn [pc_bound] in Hbp.
+  all: try match goal with H : lookup ?h ?lv = Some ?o |- _ => pose proof (lookup_cnto _ _ _ H) as Hc1 end.
+  all: first [ match type of Hbp with _ < _ => pose proof Hbp as Ho1 end
+             | match goal with H : lookup ?h ?lv = Some ?o |- _ => pose proof (lookup_bound _ _ _ _ Hbl H) as Ho1 end
+             | idtac ].
+  all: try match type of Ho1 with ?o1 < _ =>
+         destruct (Iobjs o1 Ho1) as [Jcell Jstrong Jtake Jclose Jdz1 Jdz2 Jdz3 Jdz4 Jdz5];
+         unfold get_obj in Jcell, Jstrong, Jdz2, Jdz3;
+         cbn [sh threads objs log] in Jcell, Jstrong, Jtake, Jclose, Jdz1, Jdz2, Jdz3, Jdz4, Jdz5 end.
   all: try match goal with H : okk _ _ |- _ => destruct H as [-> | [-> | ->]] end.
   all: try match goal with H : _ = None \/ _ |- _ => destruct H as [-> | [-> ?]] end.
   all: subst.
-  all: constructor; red_rec.
-  all: try assumption.
-  all: try solve [red_cnt; intros; lia].
   all: try match goal with H : ~ gone (RTake (Some _)) -> _ |- _ => specialize (H (fun x => x)) end.
-  all: try solve [solve_evs].
-  (* per-thread invariant *)
-  all: try match goal with |- forall t0 th0, nth_error (upd _ _ _) t0 = Some th0 -> _ =>
-         let t0 := fresh "t0" in let th0 := fresh "th0" in let H0 := fresh "H0" in
-         intros t0 th0 H0; destruct (Nat.eq_dec t t0) as [<-|Hne];
-         [ rewrite (nth_upd_same _ _ _ _ E) in H0; injection H0 as <-; unfold th_ok, dt_ok, okk; cbn [pc done live];
-           repeat match goal with |- _ /\ _ => split end; auto; try solve_In; try lia; try solve [solve_NB]; try solve [intros; solve_NB]
-         | rewrite nth_upd_other in H0 by assumption;
-           repeat (apply th_ok_cons; [cbn [ev_tid]; assumption|]); apply Ithreads; assumption ]
-       end.
-  all: try solve [intros Hg; exfalso; apply Hg; exact I].
-  all: try solve [right; split; [reflexivity|solve_NB]].
+  all: constructor; red_rec.
+  (* g_fd, g_len, g_next *)
+  all: try assumption.
+  all: try solve [norm_len; unfold obj_fd in *; lia].
+  (* g_evs *)
+  all: try solve [norm_len; solve_evs Ievs].
+  (* g_rets, g_closeord *)
   all: try match goal with |- ForallSuf _ _ =>
          cbn [ForallSuf]; repeat match goal with |- _ /\ _ => split end; try assumption end.
   all: try solve [solve_ret_ok].
   all: try solve [solve_close_ok].
-  all: try solve [solve_dup_ok Ievs].
+  (* g_threads *)
+  all: try match goal with |- forall t0 th0, nth_error (upd _ _ _) t0 = Some th0 -> _ =>
+         let t0 := fresh "t0" in let th0 := fresh "th0" in let H0 := fresh "H0" in
+         intros t0 th0 H0; destruct (Nat.eq_dec t t0) as [<-|Hne];
+         [ rewrite (nth_upd_same _ _ _ _ E) in H0; injection H0 as <-; split;
+           [ unfold th_ok, dt_ok, okk; cbn [pc done live];
+             repeat match goal with |- _ /\ _ => split end; auto; try solve_In; try lia; try solve [solve_NB]; try solve [intros; solve_NB]
+           | split; cbn [pc live pc_bound]; norm_len; try exact I; try lia;
+             try solve [apply rm1_bound; assumption];
+             try solve [eapply live_bound_mono; [|eassumption]; lia];
+             try solve [constructor; [cbn [snd]; lia | first [assumption | eapply live_bound_mono; [|eassumption]; lia]]] ]
+         | rewrite nth_upd_other in H0 by assumption; destruct (Ithreads _ _ H0) as [K1 K2]; split;
+           [ repeat (apply th_ok_cons; [cbn [ev_tid]; assumption|]); exact K1
+           | norm_len; eapply th_bound_mono; [|exact K2]; lia ] ]
+       end.
+  all: try solve [intros Hg; exfalso; apply Hg; exact I].
+  all: try solve [right; split; [f_equal; first [assumption | lia] | solve_NB]].
+  (* g_objs *)
+  all: intros oo Hoo; norm_len.
+  all: match goal with |- InvO _ (mkCfg _ (upd ?t ?th' ?ths)) _ =>
+         pose proof (sumf_upd (nlive oo) ths t _ th' E) as U1; pose proof (sumf_upd (holds_take oo) ths t _ th' E) as U2;
+         pose proof (sumf_upd (in_close oo) ths t _ th' E) as U3; pose proof (sumf_upd (in_dtor oo) ths t _ th' E) as U4;
+         pose proof (sumf_ge (nlive oo) _ _ _ E) as G1; pose proof (sumf_ge (holds_take oo) _ _ _ E) as G2;
+         pose proof (sumf_ge (in_close oo) _ _ _ E) as G3; pose proof (sumf_ge (in_dtor oo) _ _ _ E) as G4;
+         pose proof (sumf_le2 (in_close oo) (in_dtor oo) _ (in_close_le_dtor oo) _ _ E) as G5;
+         cbn [nlive holds_take in_close in_dtor pc live cnto] in U1, U2, U3, U4, G1, G2, G3, G4, G5
+       end.
+  all: try match goal with H : lookup ?h ?lv = Some ?o1 |- _ => pose proof (cnto_rm1 oo _ _ _ H) as R1 end.
+  (* the freshly created object of a successful dup *)
+  all: try (lazymatch goal with |- InvO _ (mkCfg (mkShared (app _ _) _ _) _) _ => idtac end;
+
+         destruct (Nat.eq_dec oo (length obs)) as [Hfr|Hfr];
+         [ subst oo;
+           pose proof (evs_bound _ _ _ Ievs) as Fb;
+           pose proof (cnt_fresh is_takecas _ _ (is_takecas_obj _) Fb) as F1;
+           pose proof (cnt_fresh is_dtorcas _ _ (is_dtorcas_obj _) Fb) as F2;
+           pose proof (cnt_fresh is_deczero _ _ (is_deczero_obj _) Fb) as F3;
+           pose proof (cnt_fresh is_close _ _ (is_close_obj _) Fb) as F4;
+           pose proof (cnt_fresh is_take_some _ _ (is_take_some_obj _) Fb) as F5;
+           pose proof (sumf_fresh nlive _ ths (nlive_fresh _) (fun t th H => proj2 (Ithreads t th H))) as S1;
+           pose proof (sumf_fresh holds_take _ ths (holds_take_fresh _) (fun t th H => proj2 (Ithreads t th H))) as S2;
+           pose proof (sumf_fresh in_close _ ths (in_close_fresh _) (fun t th H => proj2 (Ithreads t th H))) as S3;
+           pose proof (sumf_fresh in_dtor _ ths (in_dtor_fresh _) (fun t th H => proj2 (Ithreads t th H))) as S4;
+           rewrite ?Nat.eqb_refl in *;
+           match type of Ho1 with ?o1 < _ =>
+             assert (Hneb : Nat.eqb (length obs) o1 = false) by (apply Nat.eqb_neq; lia); rewrite ?Hneb in * end;
+           try fin_obj
+         | assert (Hoo' : oo < length obs) by lia;
+           assert (Hnlen : Nat.eqb oo (length obs) = false) by (apply Nat.eqb_neq; lia);
+           rewrite ?Hnlen in *; clear Hnlen ]).
+  all: try match type of Ho1 with ?o1 < _ =>
+         destruct (Nat.eq_dec oo o1) as [Heq|Hne];
+         [ subst oo; rewrite ?Nat.eqb_refl in *; pose proof Ho1 as Hoo'
+         | assert (Hneb : Nat.eqb oo o1 = false) by (apply Nat.eqb_neq; exact Hne); rewrite ?Hneb in * ] end.
+  all: try (assert (Hoo' : oo < length obs) by lia).
+  all: try (destruct (Iobjs _ Hoo') as [Kcell Kstrong Ktake Kclose Kdz1 Kdz2 Kdz3 Kdz4 Kdz5];
+       unfold get_obj in Kcell, Kstrong, Kdz2, Kdz3;
+       cbn [sh threads objs log] in Kcell, Kstrong, Ktake, Kclose, Kdz1, Kdz2, Kdz3, Kdz4, Kdz5).
+  all: try match type of Kdz3 with ?A -> ?B \/ _ =>
+         assert (Kdz3' : A -> B) by (intros Hz; destruct (Kdz3 Hz) as [Hx | Hx]; [assumption|subst ths; destruct t; discriminate]) end.
+  all: try clear Jcell Jstrong Jtake Jclose Jdz1 Jdz2 Jdz3 Jdz4 Jdz5.
+  all: fin_obj.
 Qed.
 
 Lemma exec_inv fd0 sched : forall c, Inv fd0 c -> Inv fd0 (exec sched c).
 Proof. induction sched as [|t r IH]; intros c I; cbn [exec]; [exact I|]. apply IH, step_inv, I. Qed.
 
-Lemma inv_reach fd0 progs sched : fd0 <> FD_INVALID -> Inv fd0 (exec sched (init fd0 progs)).
+Lemma inv_reach fd0 progs sched : (0 <= fd0)%Z -> Inv fd0 (exec sched (init fd0 progs)).
 Proof. intros H. apply exec_inv, inv_init, H. Qed.
 
 (** * Consequences of the invariant, stated on the chronological [trace] *)
@@ -400,7 +588,7 @@ Lemma cnt_trace p c : cnt p (trace c) = cnt p (log (sh c)).
 Proof. apply cnt_rev. Qed.
 
 Lemma gone_dec r : gone r \/ ~ gone r.
-Proof. destruct r as [[?|]|[?|]|[?|]| | | ]; cbn; auto. Qed.
+Proof. destruct r as [[?|]|[?|]|[?|]| | | | | ]; cbn; auto. Qed.
 
 Lemma sumf_all0 f l : (forall th, In th l -> f th = 0) -> sumf f l = 0.
 Proof. induction l as [|x r IH]; cbn; intros H; [reflexivity|]. rewrite (H x), IH; auto. Qed.
@@ -410,138 +598,207 @@ Proof.
   induction l as [|x r IH]; cbn; intros H th []; [subst; lia|]. apply IH; [lia|assumption].
 Qed.
 
-(** (a) at most one take returns Some, and it returns the original descriptor; so does every get *)
-Lemma take_at_most_once fd0 c : Inv fd0 c ->
-  cnt is_take_some (trace c) <= 1
-  /\ cnt is_takecas (trace c) <= 1
-  /\ (forall t i v, In (EvRet t i (RTake (Some v))) (trace c) -> v = fd0)
-  /\ (forall t i v, In (EvRet t i (RGet (Some v))) (trace c) -> v = fd0).
+Lemma cnt_le p q l : (forall e, In e l -> p e = true -> q e = true) -> cnt p l <= cnt q l.
 Proof.
-  intros I. rewrite !cnt_trace. destruct I. repeat split.
-  - lia.
-  - lia.
-  - intros t i v H. apply In_trace, in_split in H as (newer & older & H).
-    pose proof (proj1 (ForallSuf_split _ _) i_rets0 _ _ _ H) as R.
-    destruct (R _ _ _ eq_refl) as (_ & _ & R3 & _). eauto.
-  - intros t i v H. apply In_trace, in_split in H as (newer & older & H).
-    pose proof (proj1 (ForallSuf_split _ _) i_rets0 _ _ _ H) as R.
-    destruct (R _ _ _ eq_refl) as (_ & _ & _ & R4). eauto.
+  induction l as [|x r IH]; cbn; intros H; [lia|].
+  assert (IH' : cnt p r <= cnt q r) by (apply IH; intros; apply H; auto).
+  destruct (p x) eqn:E; [rewrite (H x (or_introl eq_refl) E)|destruct (q x)]; lia.
 Qed.
 
-(** every returned [Some] of a take is backed by THE successful compare_exchange *)
-Lemma take_some_needs_cas fd0 c : Inv fd0 c ->
-  cnt is_take_some (trace c) <= cnt is_takecas (trace c).
-Proof. intros I. rewrite !cnt_trace. destruct I. lia. Qed.
+Lemma ev_ok_In fd0 c e : Inv fd0 c -> In e (trace c) -> ev_ok fd0 (length (objs (sh c))) e.
+Proof. intros I H. apply In_trace in H. pose proof (g_evs _ _ I) as F. rewrite Forall_forall in F. auto. Qed.
 
-(** (b) an operation whose first atomic action comes after the successful take's
-    compare_exchange reports the descriptor as gone *)
+(** (a) at most one take of an object returns Some, and it returns that object's descriptor; so does every get *)
+Lemma take_at_most_once fd0 c o : Inv fd0 c -> o < length (objs (sh c)) ->
+  cnt (is_take_some o) (trace c) <= 1
+  /\ cnt (is_takecas o) (trace c) <= 1
+  /\ cnt (is_take_some o) (trace c) <= cnt (is_takecas o) (trace c).
+Proof.
+  intros I Ho. rewrite !cnt_trace. destruct (g_objs _ _ I o Ho). repeat split; lia.
+Qed.
+
+Lemma ret_values fd0 c : Inv fd0 c ->
+  (forall t i o v, In (EvRet t i o (RTake (Some v))) (trace c) -> v = obj_fd fd0 o)
+  /\ (forall t i o v, In (EvRet t i o (RGet (Some v))) (trace c) -> v = obj_fd fd0 o).
+Proof.
+  intros I. split.
+  - intros t i o v H. apply In_trace, in_split in H as (newer & older & H).
+    pose proof (proj1 (ForallSuf_split _ _) (g_rets _ _ I) _ _ _ H) as R.
+    destruct (R _ _ _ _ eq_refl) as (_ & _ & R3 & _). eauto.
+  - intros t i o v H. apply In_trace, in_split in H as (newer & older & H).
+    pose proof (proj1 (ForallSuf_split _ _) (g_rets _ _ I) _ _ _ H) as R.
+    destruct (R _ _ _ _ eq_refl) as (_ & _ & _ & R4). eauto.
+Qed.
+
+(** (b) an operation on object o whose first atomic action comes after the successful
+    compare_exchange of the take of o reports the descriptor as gone *)
 Lemma after_take_gone fd0 c : Inv fd0 c ->
-  forall pre tk v mid t i mid2 r post,
-    trace c = pre ++ EvTakeCas tk v :: mid ++ EvStart t i :: mid2 ++ EvRet t i r :: post ->
+  forall pre tk o v mid t i mid2 r post,
+    trace c = pre ++ EvTakeCas tk o v :: mid ++ EvStart t i o :: mid2 ++ EvRet t i o r :: post ->
     gone r.
 Proof.
-  intros I pre tk v mid t i mid2 r post H.
-  replace (pre ++ EvTakeCas tk v :: mid ++ EvStart t i :: mid2 ++ EvRet t i r :: post)
-    with ((pre ++ EvTakeCas tk v :: mid ++ EvStart t i :: mid2) ++ EvRet t i r :: post) in H
+  intros I pre tk o v mid t i mid2 r post H.
+  replace (pre ++ EvTakeCas tk o v :: mid ++ EvStart t i o :: mid2 ++ EvRet t i o r :: post)
+    with ((pre ++ EvTakeCas tk o v :: mid ++ EvStart t i o :: mid2) ++ EvRet t i o r :: post) in H
     by (rewrite <- !app_assoc; cbn; rewrite <- !app_assoc; reflexivity).
   apply trace_split in H.
-  pose proof (proj1 (ForallSuf_split _ _) (i_rets _ _ I) _ _ _ H) as R.
-  destruct (R _ _ _ eq_refl) as (_ & R2 & _).
+  pose proof (proj1 (ForallSuf_split _ _) (g_rets _ _ I) _ _ _ H) as R.
+  destruct (R _ _ _ _ eq_refl) as (_ & R2 & _).
   destruct (gone_dec r) as [G|G]; [exact G|exfalso].
   specialize (R2 G).
-  assert (E : rev (pre ++ EvTakeCas tk v :: mid ++ EvStart t i :: mid2)
-              = rev mid2 ++ EvStart t i :: rev (pre ++ EvTakeCas tk v :: mid)).
-  { replace (pre ++ EvTakeCas tk v :: mid ++ EvStart t i :: mid2)
-      with ((pre ++ EvTakeCas tk v :: mid) ++ EvStart t i :: mid2)
+  assert (E : rev (pre ++ EvTakeCas tk o v :: mid ++ EvStart t i o :: mid2)
+              = rev mid2 ++ EvStart t i o :: rev (pre ++ EvTakeCas tk o v :: mid)).
+  { replace (pre ++ EvTakeCas tk o v :: mid ++ EvStart t i o :: mid2)
+      with ((pre ++ EvTakeCas tk o v :: mid) ++ EvStart t i o :: mid2)
       by (rewrite <- !app_assoc; reflexivity).
     rewrite rev_app_distr. cbn [rev]. rewrite <- app_assoc. reflexivity. }
   pose proof (proj1 (ForallSuf_split _ _) R2 _ _ _ E eq_refl) as Z0.
-  rewrite cnt_rev, cnt_app in Z0. cbn in Z0. lia.
+  rewrite cnt_rev, cnt_app in Z0. cbn in Z0. rewrite Nat.eqb_refl in Z0. lia.
 Qed.
 
 (** every return has its start before it (so (b) speaks about every finished operation) *)
 Lemma ret_has_start fd0 c : Inv fd0 c ->
-  forall pre t i r post, trace c = pre ++ EvRet t i r :: post -> In (EvStart t i) pre.
+  forall pre t i o r post, trace c = pre ++ EvRet t i o r :: post -> In (EvStart t i o) pre.
 Proof.
-  intros I pre t i r post H. apply trace_split in H.
-  pose proof (proj1 (ForallSuf_split _ _) (i_rets _ _ I) _ _ _ H) as R.
-  destruct (R _ _ _ eq_refl) as (R1 & _). apply in_rev. exact R1.
+  intros I pre t i o r post H. apply trace_split in H.
+  pose proof (proj1 (ForallSuf_split _ _) (g_rets _ _ I) _ _ _ H) as R.
+  destruct (R _ _ _ _ eq_refl) as (R1 & _). apply in_rev. exact R1.
 Qed.
 
-(** (c)(d)(e) closes *)
-Lemma close_facts fd0 c : Inv fd0 c ->
-  cnt is_close (trace c) <= 1
-  /\ (forall t fd, In (EvClose t fd) (trace c) -> fd = fd0)
-  /\ (forall pre t fd post, trace c = pre ++ EvClose t fd :: post -> In (EvDecZero t) pre)
-  /\ cnt is_deczero (trace c) <= 1
-  /\ (0 < strong (sh c) -> cnt is_close (trace c) = 0)
-  /\ (0 < cnt is_takecas (trace c) -> cnt is_close (trace c) = 0)
-  /\ (forall t s n, In (EvDupSys t s n) (trace c) ->
-        s = fd0 /\ n <> fd0 /\ forall t' fd, In (EvClose t' fd) (trace c) -> fd <> n).
+(** (c)(d)(e) closes of one object *)
+Lemma close_facts fd0 c o : Inv fd0 c -> o < length (objs (sh c)) ->
+  cnt (is_close o) (trace c) <= 1
+  /\ cnt (is_deczero o) (trace c) <= 1
+  /\ (0 < strong (get_obj (sh c) o) -> cnt (is_close o) (trace c) = 0)
+  /\ (0 < cnt (is_takecas o) (trace c) -> cnt (is_close o) (trace c) = 0).
 Proof.
-  intros I. rewrite !cnt_trace.
-  assert (Hcl : forall t fd, In (EvClose t fd) (trace c) -> fd = fd0).
-  { intros t fd H. apply In_trace in H. pose proof (i_evs _ _ I) as F.
-    rewrite Forall_forall in F. apply (F _ H). }
-  assert (Hcnt : cnt is_close (log (sh c)) <= 1) by (destruct I; lia).
-  repeat split.
-  - exact Hcnt.
-  - exact Hcl.
-  - intros pre t fd post H. apply trace_split in H.
-    pose proof (proj1 (ForallSuf_split _ _) (i_closeord _ _ I) _ _ _ H) as R.
-    destruct (R _ _ eq_refl) as (R1 & _). apply in_rev. exact R1.
-  - destruct I; lia.
-  - destruct I; lia.
-  - destruct I; lia.
-  - apply In_trace in H. pose proof (i_evs _ _ I) as F. rewrite Forall_forall in F. apply (F _ H).
-  - apply In_trace in H. pose proof (i_evs _ _ I) as F. rewrite Forall_forall in F.
-    specialize (F _ H). cbn in F. lia.
-  - intros t' fd H'. apply Hcl in H'. subst fd.
-    apply In_trace in H. pose proof (i_evs _ _ I) as F. rewrite Forall_forall in F.
-    specialize (F _ H). cbn in F. lia.
+  intros I Ho. rewrite !cnt_trace. destruct (g_objs _ _ I o Ho). repeat split; lia.
+Qed.
+
+Lemma close_events fd0 c : Inv fd0 c ->
+  (forall t o fd, In (EvClose t o fd) (trace c) -> o < length (objs (sh c)) /\ fd = obj_fd fd0 o)
+  /\ (forall pre t o fd post, trace c = pre ++ EvClose t o fd :: post -> In (EvDecZero t o) pre).
+Proof.
+  intros I. split.
+  - intros t o fd H. destruct (ev_ok_In _ _ _ I H) as [B E]. cbn in B, E. auto.
+  - intros pre t o fd post H. apply trace_split in H.
+    pose proof (proj1 (ForallSuf_split _ _) (g_closeord _ _ I) _ _ _ H) as R.
+    apply in_rev. exact (R _ _ _ eq_refl).
+Qed.
+
+(** (e) over all objects: no descriptor number is ever closed twice *)
+Definition closes_fd (fd : Z) (e : event) : bool :=
+  match e with EvClose _ _ f => Z.eqb f fd | _ => false end.
+
+Lemma no_double_close fd0 c fd : Inv fd0 c -> cnt (closes_fd fd) (trace c) <= 1.
+Proof.
+  intros I. destruct (cnt (closes_fd fd) (trace c)) as [|k] eqn:E; [lia|].
+  destruct (cnt_pos_ex (closes_fd fd) (trace c)) as (e & Hin & He); [lia|].
+  destruct e as [| | | | | |t1 o1 f1|]; try discriminate. cbn in He. apply Z.eqb_eq in He. subst f1.
+  destruct (proj1 (close_events _ _ I) _ _ _ Hin) as [Ho Hfd].
+  rewrite <- E.
+  transitivity (cnt (is_close o1) (trace c)); [|apply (close_facts _ _ _ I Ho)].
+  apply cnt_le. intros e' Hin' He'. destruct e' as [| | | | | |t2 o2 f2|]; try discriminate.
+  cbn in He'. apply Z.eqb_eq in He'.
+  destruct (proj1 (close_events _ _ I) _ _ _ Hin') as [Ho' Hfd']. cbn.
+  apply Nat.eqb_eq. unfold obj_fd in *. lia.
+Qed.
+
+(** dup: the source is the object's descriptor; the result is the descriptor of an object
+    other than the shared one, to which all the clauses apply in turn *)
+Lemma dup_events fd0 c : Inv fd0 c ->
+  (forall t o src new, In (EvDupSys t o src new) (trace c) ->
+     src = obj_fd fd0 o /\ exists o', o' < length (objs (sh c)) /\ 0 < o' /\ new = obj_fd fd0 o')
+  /\ (forall t o src, In (EvDupFail t o src) (trace c) -> src = obj_fd fd0 o).
+Proof.
+  intros I. split.
+  - intros t o src new H. destruct (ev_ok_In _ _ _ I H) as [B E]. exact E.
+  - intros t o src H. destruct (ev_ok_In _ _ _ I H) as [B E]. exact E.
 Qed.
 
 Definition quiescent (c : cfg) : Prop := forall th, In th (threads c) -> pc th = Idle.
-Definition all_handles_dropped (c : cfg) : Prop := forall th, In th (threads c) -> live th = [].
+(** no thread owns a handle on object o *)
+Definition all_handles_dropped (o : nat) (c : cfg) : Prop := forall th, In th (threads c) -> nlive o th = 0.
 
-Lemma strong_is_live_handles fd0 c : Inv fd0 c ->
-  strong (sh c) = sumf nlive (threads c) /\ (strong (sh c) = 0 <-> all_handles_dropped c).
+Lemma strong_is_live_handles fd0 c o : Inv fd0 c -> o < length (objs (sh c)) ->
+  strong (get_obj (sh c) o) = sumf (nlive o) (threads c)
+  /\ (strong (get_obj (sh c) o) = 0 <-> all_handles_dropped o c).
 Proof.
-  intros I. split; [apply (i_strong _ _ I)|]. rewrite (i_strong _ _ I). unfold all_handles_dropped. split.
-  - intros H th Hin. pose proof (sumf_0_all _ _ H th Hin) as L. destruct th as [? ? ? [|] ?]; cbn in *; [reflexivity|discriminate].
-  - intros H. apply sumf_all0. intros th Hin. specialize (H th Hin). destruct th; cbn in *. subst. reflexivity.
+  intros I Ho. pose proof (i_strong _ _ _ (g_objs _ _ I o Ho)) as S. split; [exact S|]. rewrite S.
+  unfold all_handles_dropped. split; [apply sumf_0_all|apply sumf_all0].
 Qed.
 
-(** (c) when no thread is inside a call, nobody took the descriptor and all handles are
-    dropped, close(fd0) has been called exactly once; and every successful take has returned *)
-Lemma close_exactly_once fd0 c : Inv fd0 c -> quiescent c -> threads c <> [] ->
-  (cnt is_takecas (trace c) = 0 -> all_handles_dropped c -> cnt is_close (trace c) = 1)
-  /\ cnt is_take_some (trace c) = cnt is_takecas (trace c).
+(** (c) when no thread is inside a call, nobody took object o's descriptor and all handles on o
+    are dropped, close has been called exactly once for o; and every successful take has returned *)
+Lemma close_exactly_once fd0 c o : Inv fd0 c -> o < length (objs (sh c)) -> quiescent c -> threads c <> [] ->
+  (cnt (is_takecas o) (trace c) = 0 -> all_handles_dropped o c -> cnt (is_close o) (trace c) = 1)
+  /\ cnt (is_take_some o) (trace c) = cnt (is_takecas o) (trace c).
 Proof.
-  intros I Q NE. rewrite !cnt_trace.
-  assert (Z1 : sumf in_dtor (threads c) = 0).
+  intros I Ho Q NE. rewrite !cnt_trace.
+  assert (Z1 : sumf (in_dtor o) (threads c) = 0).
   { apply sumf_all0. intros th Hin. specialize (Q th Hin). destruct th; cbn in *. subst. reflexivity. }
-  assert (Z2 : sumf holds_take (threads c) = 0).
+  assert (Z2 : sumf (holds_take o) (threads c) = 0).
   { apply sumf_all0. intros th Hin. specialize (Q th Hin). destruct th; cbn in *. subst. reflexivity. }
+  pose proof (g_objs _ _ I o Ho) as IO.
   split.
-  - intros NT AD. apply (strong_is_live_handles _ _ I) in AD.
-    pose proof (i_dz5 _ _ I NT). destruct (i_dz3 _ _ I AD) as [?|?]; [lia|contradiction].
-  - pose proof (i_take _ _ I). lia.
+  - intros NT AD. apply (strong_is_live_handles _ _ _ I Ho) in AD.
+    pose proof (i_dz5 _ _ _ IO NT). destruct (i_dz3 _ _ _ IO AD) as [?|?]; [lia|contradiction].
+  - pose proof (i_take _ _ _ IO). lia.
 Qed.
+
+(** a failing dup(2) changes nothing but the trace *)
+Lemma dup_fail_no_effect t th s o v : pc th = DupSys o v true ->
+  objs (snd (step_thread t th s)) = objs s /\ next_fd (snd (step_thread t th s)) = next_fd s
+  /\ live (fst (step_thread t th s)) = live th.
+Proof. intros H. unfold step_thread. rewrite H. cbn. auto. Qed.
 
 (** * Ownership: programs accepted by [ownership_respected] never perform an invalid operation *)
 
-Definition own_th (th : thread) : Prop :=
-  match pc th with
-  | Idle => own_ok (prog th) (live th) (nexth th) = true
-  | TakeCas h _ | TakeDec h _ =>
-      has h (live th) = true /\ own_ok (tl (prog th)) (rm1 h (live th)) (nexth th) = true
-  | DupSys _ => own_ok (tl (prog th)) (live th) (nexth th) = true
-  | DtorLoad k | DtorCas _ k | DtorClose _ k =>
-      k <> RInvalid /\ own_ok (tl (prog th)) (live th) (nexth th) = true
+Lemma In_rmh x h L : In x (rmh h L) -> In x L.
+Proof.
+  induction L as [|y r IH]; cbn; [auto|]. destruct (Nat.eqb h y); cbn; [auto|]. intros [->|H]; auto.
+Qed.
+
+Lemma NoDup_rmh h L : NoDup L -> NoDup (rmh h L).
+Proof.
+  induction L as [|y r IH]; cbn; [auto|]. intros H. inversion H; subst.
+  destruct (Nat.eqb h y); [assumption|]. constructor; [|auto]. intros Hin. apply In_rmh in Hin. contradiction.
+Qed.
+
+Lemma In_rmh_neq x h L : NoDup L -> In x (rmh h L) -> x <> h.
+Proof.
+  induction L as [|y r IH]; cbn; [intros _ []|]. intros H. inversion H; subst.
+  destruct (Nat.eqb_spec h y).
+  - subst. intros Hin ->. contradiction.
+  - cbn. intros [->|Hin]; [congruence|auto].
+Qed.
+
+Lemma lookup_rm1_other x h lv : x <> h -> lookup x (rm1 h lv) = lookup x lv.
+Proof.
+  intros Hne. induction lv as [|[h' o'] r IH]; cbn; [reflexivity|].
+  destruct (Nat.eqb_spec h h').
+  - subst. destruct (Nat.eqb_spec x h'); [congruence|reflexivity].
+  - cbn. destruct (Nat.eqb x h'); auto.
+Qed.
+
+Definition Lok (L : list nat) (nx : nat) : Prop := NoDup L /\ forall h, In h L -> h < nx.
+(** every handle number the static check counts on is, at run time, a live handle or a dead one *)
+Definition sub_live (L : list nat) (lv : list (nat * nat)) (dd : list nat) : Prop :=
+  forall h, In h L -> lookup h lv <> None \/ has h dd = true.
+
+Definition own_pc (p : pcs) (pg : list op) (L : list nat) (nx : nat) : Prop :=
+  match p with
+  | Idle => own_ok pg L nx = true
+  | TakeCas h _ _ | TakeDec h _ _ => In h L /\ own_ok (tl pg) (rmh h L) nx = true
+  | DupSys _ _ false => own_ok (tl pg) (nx :: L) (S nx) = true
+  | DupSys _ _ true => own_ok (tl pg) L nx = true
+  | DtorLoad _ k | DtorCas _ _ k | DtorClose _ _ k => k <> RInvalid /\ own_ok (tl pg) L nx = true
   end.
 
-Definition no_invalid (lg : list event) : Prop := forall t i, ~ In (EvRet t i RInvalid) lg.
+Definition own_th (th : thread) : Prop :=
+  exists L, Lok L (nexth th) /\ sub_live L (live th) (dead th) /\ own_pc (pc th) (prog th) L (nexth th).
+
+Definition no_invalid (lg : list event) : Prop := forall t i o, ~ In (EvRet t i o RInvalid) lg.
 
 Record OwnInv (c : cfg) : Prop := mkOwnInv {
   o_th : forall th, In th (threads c) -> own_th th;
@@ -555,39 +812,96 @@ Proof.
   - destruct H as [->|H]; auto. destruct (IH _ _ _ H); auto.
 Qed.
 
-Lemma own_init progs : ownership_respected progs = true -> OwnInv (init 0%Z progs) /\
-  forall fd0, OwnInv (init fd0 progs).
+Lemma own_init progs : ownership_respected progs = true -> forall fd0, OwnInv (init fd0 progs).
 Proof.
   intros H. unfold ownership_respected in H. rewrite forallb_forall in H.
-  assert (G : forall fd0, OwnInv (init fd0 progs)).
-  { intros fd0. constructor; cbn.
-    - intros th Hin. apply in_map_iff in Hin as (p & <- & Hp). cbn. apply H, Hp.
-    - intros t i []. }
-  split; [apply G|exact G].
+  intros fd0. constructor; cbn.
+  - intros th Hin. apply in_map_iff in Hin as (p & <- & Hp). exists [0]. cbn. repeat split.
+    + repeat constructor. intros [].
+    + intros h [<-|[]]. lia.
+    + intros h [<-|[]]. left. cbn. discriminate.
+    + apply H, Hp.
+  - intros t i o [].
 Qed.
+
+Lemma Lok_cons L nx : Lok L nx -> Lok (nx :: L) (S nx).
+Proof.
+  intros [N B]. split.
+  - constructor; [|assumption]. intros Hin. apply B in Hin. lia.
+  - intros h [<-|Hin]; [lia|]. apply B in Hin. lia.
+Qed.
+
+Lemma Lok_rmh h L nx : Lok L nx -> Lok (rmh h L) nx.
+Proof. intros [N B]. split; [apply NoDup_rmh, N|]. intros x Hin. apply B. eapply In_rmh, Hin. Qed.
+
+Lemma sub_live_rmh h L lv dd : NoDup L -> sub_live L lv dd -> sub_live (rmh h L) (rm1 h lv) dd.
+Proof.
+  intros N S x Hin. pose proof (In_rmh_neq _ _ _ N Hin) as Hne. apply In_rmh in Hin.
+  rewrite (lookup_rm1_other _ _ _ Hne). apply S, Hin.
+Qed.
+
+Lemma sub_live_rmh_skip h L lv dd : sub_live L lv dd -> sub_live (rmh h L) lv dd.
+Proof. intros S x Hin. apply S. eapply In_rmh, Hin. Qed.
+
+Lemma sub_live_cons_live L lv dd nx o : sub_live L lv dd -> sub_live (nx :: L) ((nx, o) :: lv) dd.
+Proof.
+  intros S x [<-|Hin].
+  - left. cbn. rewrite Nat.eqb_refl. discriminate.
+  - destruct (S x Hin) as [H|H]; [left|right; exact H]. cbn. destruct (Nat.eqb x nx); [discriminate|exact H].
+Qed.
+
+Lemma sub_live_cons_dead L lv dd nx : sub_live L lv dd -> sub_live (nx :: L) lv (nx :: dd).
+Proof.
+  intros S x [<-|Hin].
+  - right. unfold has. cbn. rewrite Nat.eqb_refl. reflexivity.
+  - destruct (S x Hin) as [H|H]; [left; exact H|right]. unfold has in *. cbn. rewrite H. apply orb_true_r.
+Qed.
+
+Ltac own_facts :=
+  repeat match goal with
+  | H : _ /\ _ |- _ => destruct H
+  | H : andb _ _ = true |- _ => apply andb_prop in H
+  | H : has _ _ = true |- _ => apply has_In in H
+  end.
+
+Ltac solve_own_th HL HS :=
+  repeat match goal with |- _ /\ _ => split end;
+  first [ assumption
+        | exact HL
+        | apply Lok_cons; exact HL
+        | apply Lok_rmh; exact HL
+        | exact HS
+        | apply sub_live_rmh; [apply HL|exact HS]
+        | apply sub_live_rmh_skip; exact HS
+        | apply sub_live_cons_live; exact HS
+        | apply sub_live_cons_dead; exact HS
+        | discriminate
+        | idtac ].
 
 Lemma step_own t c : OwnInv c -> OwnInv (step t c).
 Proof.
   intros [Oth Olog]. unfold step. destruct (nth_error (threads c) t) as [th|] eqn:E; [|constructor; assumption].
   destruct (step_thread t th (sh c)) as [th' s'] eqn:ST.
-  destruct c as [[cl st nf lg] ths]. destruct th as [pg dn p lv nx].
-  cbn [sh threads cell strong next_fd log] in *.
-  pose proof (Oth _ (nth_error_In _ _ E)) as Hth. unfold own_th in Hth. cbn [pc prog live nexth] in Hth.
+  destruct c as [[obs nf lg] ths]. destruct th as [pg dn p lv dd nx].
+  cbn [sh threads objs next_fd log] in *.
+  destruct (Oth _ (nth_error_In _ _ E)) as (L & HL & HS & HP). cbn [pc prog live dead nexth] in HL, HS, HP.
   split_step ST.
-  1: { rewrite (upd_same _ _ _ E). constructor; assumption. }
-  all: red_rec.
-  all: cbn [own_ok tl] in Hth.
-  all: repeat match goal with
-       | H : _ /\ _ |- _ => destruct H
-       | H : andb _ _ = true |- _ => apply andb_prop in H
-       end.
-  all: try congruence.
+  all: try solve [rewrite (upd_same _ _ _ E); constructor; assumption].
+  all: red_rec; cbn [op_handle] in *.
+  all: try match goal with oo : op |- _ => destruct oo; cbn [allocates op_handle] in *; try discriminate end.
+  all: cbn [own_pc own_ok tl] in HP; own_facts.
+  (* an operation on a handle that is neither live nor dead is impossible *)
+  all: try match goal with Hn : lookup ?h _ = None, Hd : has ?h _ = false, Hi : In ?h _ |- _ =>
+         exfalso; destruct (HS h Hi) as [X|X]; [apply X; exact Hn|rewrite X in Hd; discriminate] end.
   all: constructor; red_rec.
-  all: try (intros th0 Hin; apply In_upd in Hin as [->|Hin]; [unfold own_th; cbn [pc prog live nexth tl]; auto|apply Oth; exact Hin]).
-  all: try (intros t0 i0 Hin; cbn [In] in Hin;
-            repeat match goal with H : _ \/ _ |- _ => destruct H as [H|H]; [try discriminate H; try (injection H as ? ? ?; subst; congruence)|] end;
+  all: try (intros th0 Hin; apply In_upd in Hin as [->|Hin]; [|apply Oth; exact Hin];
+            unfold own_th; cbn [pc prog live dead nexth own_pc tl];
+            first [ exists L; solve [solve_own_th HL HS]
+                  | match goal with Hi : In ?h ?LL |- _ => exists (rmh h LL); solve [solve_own_th HL HS] end
+                  | exists (nx :: L); solve [solve_own_th HL HS] ]).
+  all: try (intros t0 i0 o0 Hin; cbn [In] in Hin;
+            repeat match goal with H : _ \/ _ |- _ => destruct H as [H|H]; [try discriminate H; try (injection H as ? ? ? ?; subst; congruence)|] end;
             eapply Olog; eassumption).
-  all: split; [discriminate|assumption].
 Qed.
 
 Lemma exec_own sched : forall c, OwnInv c -> OwnInv (exec sched c).
@@ -598,25 +912,25 @@ Proof. induction sched as [|t r IH]; intros c I; cbn [exec]; [exact I|]. apply I
 Definition measure (th : thread) : nat :=
   match pc th with
   | Idle => 6 * length (prog th)
-  | TakeCas _ _ => 6 * length (tl (prog th)) + 5
-  | TakeDec _ _ => 6 * length (tl (prog th)) + 4
-  | DtorLoad _ => 6 * length (tl (prog th)) + 3
-  | DtorCas _ _ => 6 * length (tl (prog th)) + 2
-  | DtorClose _ _ | DupSys _ => 6 * length (tl (prog th)) + 1
+  | TakeCas _ _ _ => 6 * length (tl (prog th)) + 5
+  | TakeDec _ _ _ => 6 * length (tl (prog th)) + 4
+  | DtorLoad _ _ => 6 * length (tl (prog th)) + 3
+  | DtorCas _ _ _ => 6 * length (tl (prog th)) + 2
+  | DtorClose _ _ _ | DupSys _ _ _ => 6 * length (tl (prog th)) + 1
   end.
 
 Lemma measure_bound th : measure th <= steps_bound th.
-Proof. unfold measure, steps_bound. destruct th as [[|o pg] dn [] lv nx]; cbn [pc prog tl length]; lia. Qed.
+Proof. unfold measure, steps_bound. destruct th as [[|o pg] dn [] lv dd nx]; cbn [pc prog tl length]; lia. Qed.
 
 Lemma measure_0_finished th : measure th = 0 <-> finished th = true.
 Proof.
-  unfold measure, finished. destruct th as [[|o pg] dn [] lv nx]; cbn [pc prog tl length]; split; intros H; try lia; try discriminate; reflexivity.
+  unfold measure, finished. destruct th as [[|o pg] dn [] lv dd nx]; cbn [pc prog tl length]; split; intros H; try lia; try discriminate; reflexivity.
 Qed.
 
 Lemma step_thread_measure t th s th' s' : step_thread t th s = (th', s') ->
   (measure th = 0 /\ th' = th /\ s' = s) \/ measure th' < measure th.
 Proof.
-  intros ST. destruct th as [pg dn p lv nx]. destruct s as [cl st nf lg].
+  intros ST. destruct th as [pg dn p lv dd nx]. destruct s as [obs nf lg].
   split_step ST.
   all: try solve [left; cbn; auto].
   all: right; unfold measure; red_rec; cbn [tl length]; try lia.
@@ -720,7 +1034,7 @@ Proof.
   unfold finished in H. destruct (pc th); try discriminate. reflexivity.
 Qed.
 
-Lemma run_inv fd0 progs sched : fd0 <> FD_INVALID -> Inv fd0 (run sched (init fd0 progs)).
+Lemma run_inv fd0 progs sched : (0 <= fd0)%Z -> Inv fd0 (run sched (init fd0 progs)).
 Proof. intros H. unfold run. apply exec_inv, exec_inv, inv_init, H. Qed.
 
 Lemma run_is_exec sched c : run sched c = exec (sched ++ completion (exec sched c)) c.
@@ -728,81 +1042,101 @@ Proof. unfold run. rewrite exec_app. reflexivity. Qed.
 
 (** * The property, as stated in Properties/C12.v *)
 
-(** take_raw_fd calls that returned Some, and close calls, in the order they happened *)
-Definition successful_takes (c : cfg) : list event := filter is_take_some (trace c).
-Definition closes (c : cfg) : list event := filter is_close (trace c).
-(** the successful compare_exchange of a take_raw_fd (at most one exists) *)
-Definition take_swaps (c : cfg) : list event := filter is_takecas (trace c).
-(** Arc decrements that brought the strong count to 0 (at most one exists) *)
-Definition last_drops (c : cfg) : list event := filter is_deczero (trace c).
+(** per object o: take_raw_fd calls that returned Some, close calls, the successful
+    compare_exchange of a take_raw_fd, Arc decrements that brought the strong count to 0 *)
+Definition successful_takes (o : nat) (c : cfg) : list event := filter (is_take_some o) (trace c).
+Definition closes (o : nat) (c : cfg) : list event := filter (is_close o) (trace c).
+Definition take_swaps (o : nat) (c : cfg) : list event := filter (is_takecas o) (trace c).
+Definition last_drops (o : nat) (c : cfg) : list event := filter (is_deczero o) (trace c).
+(** all close(fd) calls, whatever the object *)
+Definition closes_of_fd (fd : Z) (c : cfg) : list event := filter (closes_fd fd) (trace c).
 
 Lemma filter_nil_cnt p l : filter p l = [] <-> cnt p l = 0.
 Proof. rewrite cnt_filter_length. destruct (filter p l); cbn; split; intros; try reflexivity; try discriminate. Qed.
 
+(** what holds for one object (the shared one, o = 0, or one created by a dup) *)
+Definition object_safe (fd0 : Z) (c : cfg) (o : nat) : Prop :=
+  (* (a) at most one take returns Some, and only the call that performed the one successful compare_exchange *)
+  length (successful_takes o c) <= 1
+  /\ length (take_swaps o c) <= 1
+  /\ length (successful_takes o c) <= length (take_swaps o c)
+  (* (e) at most one close *)
+  /\ length (closes o c) <= 1
+  (* (c) at most one decrement reaches 0; not before: while a handle on o is alive nothing is closed *)
+  /\ length (last_drops o c) <= 1
+  /\ (strong (get_obj (sh c) o) = 0 <-> all_handles_dropped o c)
+  /\ (~ all_handles_dropped o c -> closes o c = [])
+  (* (d) if a take succeeded the library never closes *)
+  /\ (take_swaps o c <> [] -> closes o c = [])
+  /\ (successful_takes o c <> [] -> closes o c = []).
+
 (** Safety, for every prefix of every interleaving (no assumption on the programs: an operation
     on a handle the thread does not own is skipped by the model; [ownership_respected] is what
     makes [c12_complete] below talk about all operations). *)
-Lemma c12_safety fd0 progs sched : fd0 <> FD_INVALID ->
+Lemma c12_safety fd0 progs sched : (0 <= fd0)%Z ->
   let c := exec sched (init fd0 progs) in
-  (* (a) at most one take returns Some, it returns the original descriptor (so does every get),
-         and it is the call that performed the one successful compare_exchange *)
-  length (successful_takes c) <= 1
-  /\ length (take_swaps c) <= 1
-  /\ length (successful_takes c) <= length (take_swaps c)
-  /\ (forall t i v, In (EvRet t i (RTake (Some v))) (trace c) -> v = fd0)
-  /\ (forall t i v, In (EvRet t i (RGet (Some v))) (trace c) -> v = fd0)
-  (* (b) every get/take/dup whose first atomic action comes after that compare_exchange reports gone *)
-  /\ (forall pre tk v mid t i mid2 r post,
-        trace c = pre ++ EvTakeCas tk v :: mid ++ EvStart t i :: mid2 ++ EvRet t i r :: post -> gone r)
-  /\ (forall pre t i r post, trace c = pre ++ EvRet t i r :: post -> In (EvStart t i) pre)
-  (* (e) never two closes; only fd0 is ever closed; dup results are fresh numbers the library never closes *)
-  /\ length (closes c) <= 1
-  /\ (forall t fd, In (EvClose t fd) (trace c) -> fd = fd0)
-  /\ (forall t s n, In (EvDupSys t s n) (trace c) ->
-        s = fd0 /\ n <> fd0 /\ forall t' fd, In (EvClose t' fd) (trace c) -> fd <> n)
-  (* (c) the close is made by the thread whose decrement brought the strong count to 0, after
-         that decrement; there is at most one such decrement; not before: while a handle is
-         alive nothing is closed *)
-  /\ (forall pre t fd post, trace c = pre ++ EvClose t fd :: post -> In (EvDecZero t) pre)
-  /\ length (last_drops c) <= 1
-  /\ (strong (sh c) = 0 <-> all_handles_dropped c)
-  /\ (~ all_handles_dropped c -> closes c = [])
-  (* (d) if a take succeeded the library never closes *)
-  /\ (take_swaps c <> [] -> closes c = [])
-  /\ (successful_takes c <> [] -> closes c = []).
+  (* object 0 is the shared one, over fd0 *)
+  1 <= length (objs (sh c)) /\ obj_fd fd0 0 = fd0
+  (* (a) takes and gets return the object's own descriptor *)
+  /\ (forall t i o v, In (EvRet t i o (RTake (Some v))) (trace c) -> v = obj_fd fd0 o)
+  /\ (forall t i o v, In (EvRet t i o (RGet (Some v))) (trace c) -> v = obj_fd fd0 o)
+  (* (b) every get/take/dup on o whose first atomic action comes after the take's compare_exchange on o reports gone *)
+  /\ (forall pre tk o v mid t i mid2 r post,
+        trace c = pre ++ EvTakeCas tk o v :: mid ++ EvStart t i o :: mid2 ++ EvRet t i o r :: post -> gone r)
+  /\ (forall pre t i o r post, trace c = pre ++ EvRet t i o r :: post -> In (EvStart t i o) pre)
+  (* (c)(e) every close is the close of an existing object's own descriptor, made by the thread whose
+     decrement brought that object's strong count to 0, after that decrement; no number is closed twice *)
+  /\ (forall t o fd, In (EvClose t o fd) (trace c) -> o < length (objs (sh c)) /\ fd = obj_fd fd0 o)
+  /\ (forall pre t o fd post, trace c = pre ++ EvClose t o fd :: post -> In (EvDecZero t o) pre)
+  /\ (forall fd, length (closes_of_fd fd c) <= 1)
+  (* dup reads the object's own descriptor; a successful dup returns the descriptor of a new object
+     (never object 0), for which [object_safe] holds like for any other; a failing dup only reads *)
+  /\ (forall t o src new, In (EvDupSys t o src new) (trace c) ->
+        src = obj_fd fd0 o /\ exists o', o' < length (objs (sh c)) /\ 0 < o' /\ new = obj_fd fd0 o')
+  /\ (forall t o src, In (EvDupFail t o src) (trace c) -> src = obj_fd fd0 o)
+  /\ (forall o, o < length (objs (sh c)) -> object_safe fd0 c o).
 Proof.
   intros Hfd c. pose proof (inv_reach fd0 progs sched Hfd) as I. fold c in I.
-  destruct (take_at_most_once _ _ I) as (A1 & A2 & A3 & A4).
-  pose proof (take_some_needs_cas _ _ I) as A5.
-  destruct (close_facts _ _ I) as (C1 & C2 & C3 & C4 & C5 & C6 & C7).
-  destruct (strong_is_live_handles _ _ I) as (S1 & S2).
-  unfold successful_takes, take_swaps, closes, last_drops.
-  rewrite <- !cnt_filter_length.
+  destruct (ret_values _ _ I) as (V1 & V2).
+  destruct (close_events _ _ I) as (E1 & E2).
+  destruct (dup_events _ _ I) as (D1 & D2).
   repeat match goal with |- _ /\ _ => split end; auto.
+  - apply (g_len _ _ I).
+  - unfold obj_fd. cbn. lia.
   - apply (after_take_gone _ _ I).
   - apply (ret_has_start _ _ I).
-  - intros H. apply filter_nil_cnt. apply C5.
-    destruct (strong (sh c)) eqn:E; [|lia]. exfalso. apply H. apply S2. reflexivity.
-  - intros H. apply filter_nil_cnt. apply C6.
-    destruct (cnt is_takecas (trace c)) eqn:E; [|lia]. apply filter_nil_cnt in E. contradiction.
-  - intros H. apply filter_nil_cnt. apply C6.
-    destruct (cnt is_take_some (trace c)) eqn:E; [|lia]. apply filter_nil_cnt in E. contradiction.
+  - intros fd. unfold closes_of_fd. rewrite <- cnt_filter_length. apply (no_double_close _ _ _ I).
+  - intros o Ho.
+    destruct (take_at_most_once _ _ _ I Ho) as (A1 & A2 & A3).
+    destruct (close_facts _ _ _ I Ho) as (C1 & C4 & C5 & C6).
+    destruct (strong_is_live_handles _ _ _ I Ho) as (S1 & S2).
+    unfold object_safe, successful_takes, take_swaps, closes, last_drops.
+    rewrite <- !cnt_filter_length.
+    repeat match goal with |- _ /\ _ => split end; auto.
+    + intros H. apply filter_nil_cnt. apply C5.
+      destruct (strong (get_obj (sh c) o)) eqn:E; [|lia]. exfalso. apply H. apply S2. reflexivity.
+    + intros H. apply filter_nil_cnt. apply C6.
+      destruct (cnt (is_takecas o) (trace c)) eqn:E; [|lia]. apply filter_nil_cnt in E. contradiction.
+    + intros H. apply filter_nil_cnt. apply C6.
+      destruct (cnt (is_take_some o) (trace c)) eqn:E; [|lia]. apply filter_nil_cnt in E. contradiction.
 Qed.
 
 (** Completed runs: [run] = the schedule followed by the run-to-completion phase
     (= [exec] on a longer schedule, [run_is_exec], so [c12_safety] applies to it too). *)
-Lemma c12_complete fd0 progs sched : fd0 <> FD_INVALID -> progs <> [] ->
+Lemma c12_complete fd0 progs sched : (0 <= fd0)%Z -> progs <> [] ->
   ownership_respected progs = true ->
   let c := run sched (init fd0 progs) in
   all_finished c = true
-  (* every operation of every program was executed on a handle its thread owned *)
-  /\ (forall t i, ~ In (EvRet t i RInvalid) (trace c))
-  (* (c) nobody took it and every handle was dropped: close(fd0) exactly once *)
-  /\ (take_swaps c = [] -> all_handles_dropped c -> exists t, closes c = [EvClose t fd0])
-  (* (c) not all handles dropped: not closed *)
-  /\ (~ all_handles_dropped c -> closes c = [])
-  (* (d) somebody took it: exactly one take returned Some, nothing closed *)
-  /\ (take_swaps c <> [] -> length (successful_takes c) = 1 /\ closes c = []).
+  (* every operation was executed on a handle its thread owned, or skipped because the dup that
+     would have created the handle did not succeed *)
+  /\ (forall t i o, ~ In (EvRet t i o RInvalid) (trace c))
+  /\ (forall o, o < length (objs (sh c)) ->
+        (* (c) nobody took it and every handle was dropped: close(its descriptor) exactly once *)
+        (take_swaps o c = [] -> all_handles_dropped o c -> exists t, closes o c = [EvClose t o (obj_fd fd0 o)])
+        (* (c) not all handles dropped: not closed *)
+        /\ (~ all_handles_dropped o c -> closes o c = [])
+        (* (d) somebody took it: exactly one take returned Some, nothing closed *)
+        /\ (take_swaps o c <> [] -> length (successful_takes o c) = 1 /\ closes o c = [])).
 Proof.
   intros Hfd Hne Hown c.
   pose proof (run_inv fd0 progs sched Hfd) as I. fold c in I.
@@ -811,50 +1145,63 @@ Proof.
   assert (NE : threads c <> []).
   { intros E. apply (f_equal (@length thread)) in E. unfold c, run in E.
     rewrite !exec_length in E. cbn in E. rewrite map_length in E. destruct progs; [contradiction|discriminate]. }
-  destruct (close_exactly_once _ _ I Q NE) as (X1 & X2).
-  destruct (close_facts _ _ I) as (C1 & C2 & C3 & C4 & C5 & C6 & C7).
-  destruct (strong_is_live_handles _ _ I) as (S1 & S2).
-  destruct (take_at_most_once _ _ I) as (A1 & A2 & _).
-  unfold successful_takes, take_swaps, closes.
   repeat match goal with |- _ /\ _ => split end.
   - exact F.
-  - intros t i H. apply In_trace in H.
-    destruct (own_init progs Hown) as (_ & O). specialize (O fd0).
-    unfold c, run in H. apply (o_log _ (exec_own _ _ (exec_own _ _ O)) t i H).
-  - intros NT AD. apply filter_nil_cnt in NT. specialize (X1 NT AD).
-    rewrite cnt_filter_length in X1.
-    destruct (filter is_close (trace c)) as [|e [|e' r]] eqn:E; cbn in X1; try lia.
-    assert (Hin : In e (filter is_close (trace c))) by (rewrite E; left; reflexivity).
-    apply filter_In in Hin as (Hin & Hc). destruct e; try discriminate.
-    exists t. rewrite (C2 _ _ Hin). reflexivity.
-  - intros H. apply filter_nil_cnt. apply C5.
-    destruct (strong (sh c)) eqn:E; [|lia]. exfalso. apply H. apply S2. reflexivity.
-  - intros H. rewrite <- cnt_filter_length.
-    assert (0 < cnt is_takecas (trace c)).
-    { destruct (cnt is_takecas (trace c)) eqn:E; [|lia]. apply filter_nil_cnt in E. contradiction. }
-    split; [lia|]. apply filter_nil_cnt. apply C6. assumption.
+  - intros t i o H. apply In_trace in H.
+    pose proof (own_init progs Hown fd0) as O.
+    unfold c, run in H. apply (o_log _ (exec_own _ _ (exec_own _ _ O)) t i o H).
+  - intros o Ho.
+    destruct (close_exactly_once _ _ _ I Ho Q NE) as (X1 & X2).
+    destruct (close_facts _ _ _ I Ho) as (C1 & C4 & C5 & C6).
+    destruct (strong_is_live_handles _ _ _ I Ho) as (S1 & S2).
+    destruct (take_at_most_once _ _ _ I Ho) as (A1 & A2 & _).
+    destruct (close_events _ _ I) as (E1 & _).
+    unfold successful_takes, take_swaps, closes.
+    repeat match goal with |- _ /\ _ => split end.
+    + intros NT AD. apply filter_nil_cnt in NT. specialize (X1 NT AD).
+      rewrite cnt_filter_length in X1.
+      destruct (filter (is_close o) (trace c)) as [|e [|e' r]] eqn:E; cbn in X1; try lia.
+      assert (Hin : In e (filter (is_close o) (trace c))) by (rewrite E; left; reflexivity).
+      apply filter_In in Hin as (Hin & Hc). destruct e as [| | | | | |t1 o1 f1|]; try discriminate.
+      cbn in Hc. apply Nat.eqb_eq in Hc. subst o1.
+      exists t1. rewrite (proj2 (E1 _ _ _ Hin)). reflexivity.
+    + intros H. apply filter_nil_cnt. apply C5.
+      destruct (strong (get_obj (sh c) o)) eqn:E; [|lia]. exfalso. apply H. apply S2. reflexivity.
+    + intros H. rewrite <- cnt_filter_length.
+      assert (0 < cnt (is_takecas o) (trace c)).
+      { destruct (cnt (is_takecas o) (trace c)) eqn:E; [|lia]. apply filter_nil_cnt in E. contradiction. }
+      split; [lia|]. apply filter_nil_cnt. apply C6. assumption.
 Qed.
 
 (** ** The hypotheses are inhabited; the statements are not vacuous *)
 
-Example c12_ex_hyps : (100 <> FD_INVALID)%Z /\ ex3_progs <> [] /\ ownership_respected ex3_progs = true.
+Example c12_ex_hyps : (0 <= 100)%Z /\ ex3_progs <> [] /\ ownership_respected ex3_progs = true.
 Proof. repeat split; [discriminate|discriminate]. Qed.
 
 (* (b)'s premise occurs: thread 0 takes (load, compare_exchange), then thread 1 starts its get *)
 Example c12_ex_after_take :
   trace (exec [0; 0; 1] (init 100 ex3_progs))
-  = [EvStart 0 0] ++ EvTakeCas 0 100 :: [] ++ EvStart 1 0 :: [] ++ EvRet 1 0 (RGet None) :: [].
+  = [EvStart 0 0 0] ++ EvTakeCas 0 0 100 :: [] ++ EvStart 1 0 0 :: [] ++ EvRet 1 0 0 (RGet None) :: [].
 Proof. vm_compute. reflexivity. Qed.
 
-(* nobody takes, everybody drops: one close, by thread 1 whose decrement was the last *)
+(* nobody takes, everybody drops: one close per object, by the thread whose decrement was the
+   last; the dup result (object 1 over 8) is closed when its only handle is dropped *)
 Example c12_ex_close :
-  let c := run [0; 0; 1] (init 7 [ [Dup 0; Drop 0]; [Get 0; Drop 0] ]) in
-  take_swaps c = [] /\ all_finished c = true /\ strong (sh c) = 0
-  /\ closes c = [EvClose 1 7] /\ last_drops c = [EvDecZero 1].
+  let c := run [0; 0; 1] (init 7 [ [Dup 0; Drop 0; Drop 1]; [Get 0; Drop 0] ]) in
+  take_swaps 0 c = [] /\ all_finished c = true /\ map strong (objs (sh c)) = [0; 0]
+  /\ closes 0 c = [EvClose 1 0 7] /\ last_drops 0 c = [EvDecZero 1 0]
+  /\ closes 1 c = [EvClose 0 1 8] /\ closes_of_fd 8 c = [EvClose 0 1 8].
 Proof. vm_compute. repeat split; reflexivity. Qed.
 
 (* somebody takes: no close although everything is dropped *)
 Example c12_ex_taken :
   let c := run [1; 0; 1; 0; 1; 2; 2; 0] (init 100 ex3_progs) in
-  successful_takes c = [EvRet 0 0 (RTake (Some 100%Z))] /\ closes c = [] /\ strong (sh c) = 0.
+  successful_takes 0 c = [EvRet 0 0 0 (RTake (Some 100%Z))] /\ closes 0 c = [] /\ map strong (objs (sh c)) = [0].
+Proof. vm_compute. repeat split; reflexivity. Qed.
+
+(* a failing dup while another clone is alive: nothing is closed until the last drop *)
+Example c12_ex_dupfail :
+  let c := exec [0; 0] (init 7 [ [DupFail 0; Drop 0]; [Get 0; Drop 0] ]) in
+  results_of 0 c = [RDupErr] /\ syscalls c = [EvDupFail 0 0 7] /\ closes 0 c = []
+  /\ map strong (objs (sh c)) = [2].
 Proof. vm_compute. repeat split; reflexivity. Qed.
